@@ -129,6 +129,10 @@ func runC01(c *Ctx) {
 	// R7: what a failed phase 2 restores is the PRE-commit handle state.
 	r7 := c.Rule("R7", "a commit that fails at or after the commit point restores pre-commit handles: phase1Commit writes the handles' pre-images to the priority log before activateInactiveNodes/touchNodes flip them in place, from exactly the slices those calls receive (shared with C08.R2)", 4)
 	rulePreImagesBeforeFlip(c, r7)
+
+	// R8: the "nothing" half: every persistent commit step has its undo in the rollback ladder.
+	r8 := c.Rule("R8", "undo table: every persistent commit step of phase1Commit has a block in the live rollback guarded by `committedState OP step` with an operator that covers every state in which the step may have acted, the block calls the step's undo function, and no exit bypasses a guard (shared with C07.R1)", 25)
+	commitUndoRules(c, r8, "", "", "", "")
 	_ = ast.Inspect
 }
 
